@@ -42,6 +42,30 @@ class Ctx:
             self._rd[f.qualname] = r
         return r
 
+    def exc_filter(self, f):
+        """edge filter for path queries: keeps an exception edge only if its source statement can raise an Exception
+        according to the escape analysis (explicit raise/assert, or a call with a non-empty escape set)"""
+        es = self.escape
+        cache = {}
+
+        def ok(edge):
+            if edge.kind != "exc":
+                return True
+            src = edge.src
+            r = cache.get(src.id)
+            if r is None:
+                r = False
+                if src.kind == "reraise" or isinstance(src.ast, (ast.Raise, ast.Assert)) and src.kind in ("stmt", "test"):
+                    r = True
+                else:
+                    for c in calls_in(src):
+                        if es.call(c, {"f": f, "record": False, "caught": None, "vars": {}}):
+                            r = True
+                            break
+                cache[src.id] = r
+            return r
+        return ok
+
     # ------------------------------------------------------------------ call helpers
     def call_targets(self, call, f):
         return self.cg.resolve_call(call, f)
